@@ -6,7 +6,7 @@ ID = 'C05'
 COQ_IMPORTS = ['C05_Model']
 ALPHA = 'ACGTRYSWKMBDHVN.-'
 OPS = {'complement': 0, 'rc': 1, 'rev_complement': 2, 'rc_rc': 3, 'gc': 4, 'reverse': 5}
-RULE = ('all 18 single symbols, every string up to length 2 (quick) / 4 (thorough) over the 17-symbol alphabet, random DNA/RNA '
+RULE = ('the CODES entry of every symbol against the IUPAC meaning; all 18 single symbols, every string up to length 2 (quick) / 4 (thorough) over the 17-symbol alphabet, random DNA/RNA '
         'strings up to 3000 residues and 65 600 / 66 000 residues with ambiguity codes / U only at the far end (rc, complement, reverse.complement; '
         'evaluated by run_C05_lin, proved equal); ops complement, rc, reverse.complement, rc.rc, gc counts, seq- and basket-level; a history stream '
         '(object edited in place - alphabet switched, residues assigned, +=, copy, rc - before the operation; baskets holding a sequence '
@@ -91,6 +91,7 @@ def gen_cases(rng, tier):
                     others.append(''.join(rng.choice(ALPHA) for _ in range(rng.randrange(0, 6))))
         cases.append({'op': rng.choice(['complement', 'rc', 'rev_complement', 'rc_rc', 'reverse']), 's': s, 'basket': bool(others),
                       'pre': pre, 'others': others, 'ufts': rng.random() < 0.3})
+    cases += [{'kind': 'codes', 'c': c} for c in ALPHA]
     cases += gen_hist(rng, tier)
     cases += gen_derive(rng, tier)
     return cases
@@ -160,6 +161,9 @@ def cur(case):
 
 
 def impl(case):
+    if case.get('kind') == 'codes':
+        import sugar.data as D
+        return D.CODES.get(case['c'])
     if case.get('kind') == 'hist':
         return impl_hist(case)
     if case.get('kind') == 'derive':
@@ -225,6 +229,8 @@ def classify(s):
 
 
 def split_model(case, m):
+    if case.get('kind') == 'codes':
+        return True, m
     if case.get('kind') == 'derive':
         return True, m
     if case.get('kind') == 'hist':
@@ -233,6 +239,8 @@ def split_model(case, m):
 
 
 def valid_case(case):
+    if case.get('kind') == 'codes':
+        return isinstance(case.get('c'), str) and len(case['c']) == 1
     if case.get('kind') == 'derive':
         ks = [kv[0] for kv in case['codes']]
         return (len(set(ks)) == len(ks) and all(isinstance(kv, list) and len(kv) == 2 and len(kv[0]) == 1 for kv in case['codes'])
@@ -557,6 +565,8 @@ def _derive_sets(case, pairs):
 
 
 def agree(case, implval, modelval):
+    if case.get('kind') == 'codes':
+        return (implval is None and modelval is None) or (isinstance(implval, str) and isinstance(modelval, str) and sorted(implval) == sorted(modelval))
     if case.get('kind') == 'hist':
         # the model operates on an object once per listing in the basket; once per object is as good for the property
         return implval == modelval or (any(o[0] == 14 for o in case['ops']) and spec_hist(case, implval) is None)
@@ -635,6 +645,8 @@ def gen_derive(rng, tier):
 
 
 def model_term(case):
+    if case.get('kind') == 'codes':
+        return 'out (run_C05_codes %s)' % coq_byte(case['c'])
     if case.get('kind') == 'derive':
         return 'out (run_C05_derive %s %s)' % (
             coq_list([coq_pair(coq_byte(k), coq_bs(v)) for k, v in case['codes']]),
@@ -649,6 +661,9 @@ def model_term(case):
 
 def spec(case, got):
     """Property-level oracle, independent of the Coq model."""
+    if case.get('kind') == 'codes':
+        want = IUPAC.get(case['c'])
+        return None if (got is None) == (want is None) and (got is None or (isinstance(got, str) and set(got) == set(want))) else 'CODES[%r] = %r is not the IUPAC meaning %r' % (case['c'], got, want)
     if case.get('kind') == 'hist':
         return spec_hist(case, got)
     if case.get('kind') == 'derive':
@@ -670,6 +685,8 @@ def spec(case, got):
 
 
 def nontrivial(case, got):
+    if case.get('kind') == 'codes':
+        return 'codes:' + case['c']
     if case.get('kind') == 'derive':
         return 'derive:' + repr(case['codes'])
     if case.get('kind') == 'hist':
@@ -683,6 +700,8 @@ def nontrivial(case, got):
 
 
 def histkey(case, got):
+    if case.get('kind') == 'codes':
+        return ['codes']
     if case.get('kind') == 'derive':
         return ['derive', 'derive-' + ('skipped' if isinstance(got, dict) and got.get('skip') else 'KeyError' if isinstance(got, dict) else 'ok')]
     if case.get('kind') == 'hist':
@@ -695,6 +714,8 @@ def histkey(case, got):
 
 
 def python_snippet(case):
+    if case.get('kind') == 'codes':
+        return 'from sugar.data import CODES; print(CODES.get(%r))' % case['c']
     if case.get('kind') == 'derive':
         return snippet_hist(case).replace('impl_hist', 'impl_derive').replace('spec_hist', 'spec_derive')
     if case.get('kind') == 'hist':
